@@ -291,7 +291,11 @@ for case in payload["cases"]:
         o = read_frame(res, labels)
         o["ok"] = True
         o["digest_exact"] = digest_exact(case, o)
-        o["score_agreement"] = score_agreement(case, o)
+        try:
+            o["score_agreement"] = score_agreement(case, o)
+        except Exception as e:            # the supporting comparison must never turn into an outcome of the code under test
+            o["score_agreement"] = None
+            o["score_agreement_error"] = repr(e)[:200]
         o["counter"] = sorted([list(k), int(v)] for k, v in cr.GLOBAL_PRIOR_COMB_COUNTS.items())
         out.append(o)
     except Exception as e:  # recorded outcome, decided by the harness
